@@ -13,7 +13,7 @@ let () =
   (try
     while true do
       let line = input_line ic in
-      if String.trim line <> "" then begin
+      if Stdlib.String.trim line <> "" then begin
         let r = (try f line with Failure m -> "DRIVER-FAIL " ^ m | Stack_overflow -> "DRIVER-STACK") in
         output_string oc r; output_char oc '\n'
       end
